@@ -1,7 +1,12 @@
 --------------------------- MODULE MC_Containers ---------------------------
 (* Exhaustive configuration of Containers: full state, small constants.   *)
+(* Handle 1 explores up to MaxLen elements (nested ones counted), the     *)
+(* other handles MaxLen2.                                                 *)
 EXTENDS Containers
-Bound == \A h \in H : /\ Len(val[h]) <= MaxLen
+CONSTANT MaxLen2
+RECURSIVE Total(_)
+Total(s) == IF s = <<>> THEN 0 ELSE 1 + Len(s[1].sub) + Total(SubSeq(s, 2, Len(s)))
+Bound == \A h \in H : /\ Total(val[h]) <= (IF h = 1 THEN MaxLen ELSE MaxLen2)
                       /\ \A i \in 1..Len(val[h]) : Len(val[h][i].sub) <= MaxSub
 View  == <<kind, val, cnt, rec, share>>
 =============================================================================
